@@ -975,6 +975,21 @@ pub fn c09(out: &mut dyn Write, tier: &str, rng: &mut Rng, st: &mut Stats) {
             let mut g = Gen { rng, names: names.clone(), allow_fix: i % 2 == 0, big_consts: false, max_list: 3 };
             g.gen(depth, &Pol::new())
         };
+        // every twentieth case: a fixed point whose bound name stands BELOW a negation, at positive polarity all the same
+        // (`!(X => !t)`, `!!(X | t)`, `!(!X nand t)` …): substitution has to pass through the negation
+        let gf = if i % 20 == 4 {
+            let x = "Xneg".to_string();
+            let t = Box::new(gf);
+            let vx = || Box::new(GF::Var("Xneg".to_string()));
+            let body = match (i / 20) % 4 {
+                0 => GF::Not(Box::new(GF::Bin(5, vx(), Box::new(GF::Not(t))))),
+                1 => GF::Not(Box::new(GF::Not(Box::new(GF::Bin(1, vx(), t))))),
+                2 => GF::Bin(0, Box::new(GF::Not(Box::new(GF::Not(vx())))), t),
+                _ => GF::Not(Box::new(GF::Bin(3, vx(), Box::new(GF::Not(t))))),
+            };
+            st.hit("fix.bound-name-below-a-negation");
+            GF::Fix(x, (i / 80) % 2 == 0, Box::new(body))
+        } else { gf };
         // every tenth case: 62 to 66 further variables in front (a conjunction), so that the names of the formula
         // proper are numbered around and beyond 64 under the default numbering
         let gf = if i % 10 == 7 {
